@@ -179,6 +179,33 @@ pub fn eval(p: &Parameters, variant: usize, q: &Joints, eps: f64, limits: usize)
             }
             Err(_) => fails.push((format!("C15/velocities-iso-error/{tag}"), "velocities failed".into())),
         }
+        // the same rigid motion written with the other quaternion (-q), and as a product of two half-turn-sized rotations
+        // (scalar part negative): equal isometries must give equal velocities
+        {
+            let iso = twist_iso(x);
+            let neg = Isometry3::from_parts(iso.translation, UnitQuaternion::new_unchecked(-iso.rotation.into_inner()));
+            let axis = Vector3::new(x[3], x[4], x[5]);
+            let composed = if axis.norm() > 0.0 {
+                let u = nalgebra::Unit::new_normalize(axis);
+                let a = UnitQuaternion::from_axis_angle(&u, std::f64::consts::PI);
+                let b = UnitQuaternion::from_axis_angle(&u, std::f64::consts::PI + axis.norm());
+                Some(Isometry3::from_parts(iso.translation, a * b))
+            } else {
+                None
+            };
+            for (form, alt) in [("negated-quaternion", Some(neg)), ("composed-rotations", composed)] {
+                let Some(alt) = alt else { continue };
+                match j.velocities(&alt) {
+                    Ok(qa) => {
+                        let d = (0..6).map(|i| (qa[i] - qd[i]).abs()).fold(0.0, f64::max);
+                        if !(d <= 1e-9 * (1.0 + qdn) * cond) {
+                            fails.push((format!("C15/velocities-iso-vs-vector/{form}/{tag}"), format!("twist {ti}: the {form} form of the same isometry gives velocities {d:e} away")));
+                        }
+                    }
+                    Err(_) => fails.push((format!("C15/velocities-iso-error/{form}/{tag}"), "velocities failed".into())),
+                }
+            }
+        }
         if x[3] == 0.0 && x[4] == 0.0 && x[5] == 0.0 {
             match j.velocities_fixed(x[0], x[1], x[2]) {
                 Ok(qf) => {
@@ -256,11 +283,65 @@ pub fn run(ctx: &Ctx) -> Report {
             }
         }
     });
+    // --- threshold sweep: every differencing step of the ladder inside the documented 1e-7..1e-5 range, and joint values a
+    // ladder magnitude away from 0 and from +-pi (where an angle normalisation would bite)
+    {
+        let lad = crate::common::ladder::ladder(&["jacobian.rs"]);
+        let steps: Vec<f64> = lad.iter().cloned().filter(|e| *e >= 1e-7 && *e <= 1e-5).collect();
+        let srobots = [robots[0], robots[robots.len() / 2], robots[robots.len() - 1]];
+        let ssizes = [lad.len(), 3, 7, srobots.len(), 2];
+        let sn = par::product(&ssizes);
+        let srep = par::run(sn, |idx, r| {
+            let mut ix = [0usize; 5];
+            par::decode(idx, &ssizes, &mut ix);
+            let p = &srobots[ix[3]];
+            let mut q = user_joints(p, &[0.4, -0.9, 0.8, 0.3, -1.2, 0.2]);
+            let d = lad[ix[0]];
+            let (eps, tag) = match ix[1] {
+                0 => {
+                    if !(d >= 1e-7 && d <= 1e-5) {
+                        return;
+                    }
+                    (d, "step")
+                }
+                1 => {
+                    for (i, x) in q.iter_mut().enumerate() {
+                        if i % 2 == ix[4] {
+                            *x = d * if i < 3 { 1.0 } else { -1.0 };
+                        }
+                    }
+                    (1e-6, "joint-near-zero")
+                }
+                _ => {
+                    for (i, x) in q.iter_mut().enumerate() {
+                        if i % 2 == ix[4] {
+                            *x = if i < 3 { std::f64::consts::PI - d } else { -std::f64::consts::PI + d };
+                        }
+                    }
+                    (1e-6, "joint-near-pi")
+                }
+            };
+            let case = || json!({"params": params_json(p), "variant": ix[2], "q": nums(&q), "eps": eps, "limits": 0});
+            match eval(p, ix[2], &q, eps, 0) {
+                Err(_) => r.skipped_precondition += 1,
+                Ok((fails, sig)) => {
+                    r.states += 1;
+                    r.transitions += 7 + 8 * 4;
+                    r.sig(format!("ladder:{tag}:{sig}"));
+                    for (k, dd) in fails {
+                        r.fail(format!("{k}/{tag}"), n + idx, case(), dd);
+                    }
+                }
+            }
+        });
+        rep.merge(srep);
+        rep.set("threshold_sweep", json!({"ladder_values": lad.len(), "steps_in_documented_range": steps.len(), "kinds": ["step", "joint-near-zero", "joint-near-pi"]}));
+    }
     rep.traces_validated = rep.states;
     rep.rule = "robots R (unconstrained, and constrained with each joint in turn exactly on its upper / lower limit) x stacks {bare, tool, base, base+tool, tool over parallelogram(J2->J3, 1.0 and 0.5), parallelogram(J1->J6, -0.5) over base} x joint lattice (a third of the postures with whole turns added to some joints) (geometric Jacobian condition number < 1e3, else skipped_precondition) x \
                 differencing steps {1e-7,1e-6,1e-5}; the private matrix is read row by row through torques_from_vector(e_k); oracle: geometric Jacobian from \
                 FK_ref axes/origins within eps*reach + 4e-15*reach/eps; J_geo*velocities(X) = X on the 6 basis twists + 2 mixed; torques = J_geo^T F; \
-                isometry/vector/fixed entry points agree; signature = (stack, condition-number decade)".into();
+                isometry/vector/fixed entry points agree, the isometry also written with the negated quaternion and as a product of two rotations beyond a half turn; threshold sweep: every ladder step inside 1e-7..1e-5, joints a ladder magnitude from 0 / +-pi, all 7 stacks; signature = (stack, condition-number decade)".into();
     rep.set("axes", json!({"robots": robots.len(), "stacks": 7, "eps": EPSS.to_vec(), "theta_axis_sizes": ax.iter().map(|a| a.len()).collect::<Vec<_>>() }));
     rep.assumptions.push("a linear map is decided on a basis: the 6 unit twists/wrenches are exhaustive for the velocity/torque clauses at each lattice posture".into());
     rep
